@@ -497,6 +497,16 @@ func specToGo2(t string) (string, error) {
 		}
 		return fmt.Sprintf("__imp(%s, %s)", a, c), nil
 	}
+	// a quantifier after && / || extends to the end of the expression
+	for _, q := range []string{"forall ", "exists "} {
+		if k := topIndex(t, q); k > 0 && (t[k-1] == ' ' || t[k-1] == '(') {
+			rest, err := specToGo(t[k:])
+			if err != nil {
+				return "", err
+			}
+			return t[:k] + rest, nil
+		}
+	}
 	return t, nil
 }
 
